@@ -207,11 +207,15 @@ type hcase struct {
 	// ibb: the stanza that carries the data: "iq" (acknowledged) or "message"
 	carrier string
 	steps   []hstep
+	// origin "peer": the application waits for the stream with Listener.Expect,
+	// called twice for the same session (the documented take-over: the first
+	// call is cancelled, the second gets the stream), instead of Accept
+	takeover bool
 }
 
 func (c hcase) String() string {
 	var sb strings.Builder
-	fmt.Fprintf(&sb, "%s helpers, s2s=%v stream-opened-by=%s data-carried-by=%s steps:", c.kind, c.s2s, c.origin, c.carrier)
+	fmt.Fprintf(&sb, "%s helpers, s2s=%v stream-opened-by=%s (awaited with two Expect calls, the second taking over: %v) data-carried-by=%s steps:", c.kind, c.s2s, c.origin, c.takeover, c.carrier)
 	for _, s := range c.steps {
 		sb.WriteString(" " + s.String())
 	}
@@ -224,6 +228,7 @@ func genHelpers(t *rapid.T) hcase {
 	if c.kind == "ibb" {
 		c.origin = rapid.SampledFrom([]string{"local", "local", "peer"}).Draw(t, "origin")
 		c.carrier = rapid.SampledFrom([]string{"iq", "iq", "message"}).Draw(t, "carrier")
+		c.takeover = c.origin == "peer" && rapid.IntRange(0, 2).Draw(t, "takeover") == 0
 		c.steps = append(c.steps, hstep{op: "open", pol: rapid.SampledFrom([]string{"accept", "accept", "accept", "accept", "refuse", "refuse-constraint", "refuse-unavailable", "refuse-bare", "silent"}).Draw(t, "openpol")})
 		for i := 0; i < n; i++ {
 			st := hstep{op: rapid.SampledFrom([]string{"write", "write", "peerdata", "read", "readwait", "peerclose", "close", "flush", "peerclose-during-write"}).Draw(t, "op")}
@@ -461,10 +466,38 @@ func checkHelpers(t interface {
 				} else {
 					l := ih.Listen(sv.Session)
 					acc := make(chan net.Conn, 1)
-					go func() {
-						cn, _ := l.Accept()
-						acc <- cn
-					}()
+					if c.takeover {
+						first := make(chan error, 1)
+						go func() {
+							_, err := l.Expect(context.Background(), peerJID, psid)
+							first <- err
+						}()
+						for k := 0; k < 2000 && len(wire.BlockedMatching("ibb.(*Listener).Expect")) == 0; k++ {
+							time.Sleep(time.Millisecond)
+						}
+						go func() {
+							cn, _ := l.Expect(context.Background(), peerJID, psid)
+							acc <- cn
+						}()
+						select {
+						case err := <-first:
+							if err == nil {
+								fail("%s: the first Expect for the session returned nil although a second Expect took over and no stream was opened", what)
+							}
+						case <-time.After(waitLong):
+							stalled(what + ": the first of two Expect calls for the same session did not return after the second one took over")
+							return
+						}
+						// the second call is waiting now
+						for k := 0; k < 2000 && len(wire.BlockedMatching("ibb.(*Listener).Expect")) == 0; k++ {
+							time.Sleep(time.Millisecond)
+						}
+					} else {
+						go func() {
+							cn, _ := l.Accept()
+							acc <- cn
+						}()
+					}
 					sv.Feed(`<iq xmlns="` + ns + `" type="set" id="po1" from="` + peerJID.String() + `" to="test@example.net"><open xmlns="http://jabber.org/protocol/ibb" sid="` + psid + `" block-size="4096" stanza="` + c.carrier + `"/></iq>`)
 					if !answered("po1") {
 						stalled(what + ": the peer's <open/> was not answered")
